@@ -1,6 +1,8 @@
 import GeoVerif.Corr.Proto
 import GeoVerif.Model.Geocentric
-/-! Correspondence for C07: the polymorphic formula models run in native binary64 against the implementation -/
+import GeoVerif.Model.MathF
+/-! Correspondence for C07: the polymorphic formula models run in native binary64 against the implementation;
+    `LatFix`/`AngNormalize` of the accessors in the exact binary64 model -/
 namespace GeoVerif.Corr.C07
 open GeoVerif GeoVerif.Proto GeoVerif.Geocentric
 
@@ -11,50 +13,84 @@ def shw (x : Float) : String := toString x ++ "[" ++ natToHex x.toBits.toNat 16 
 def closeF (a b scale rel : Float) : Bool :=
   (a.isNaN && b.isNaN) || (a == b) || (Float.abs (a - b) ≤ rel * scale)
 
+def eps : Float := 2.220446049250313e-16
+
+/-- all nine entries within `tol` -/
+def closeM (m impl : List Float) (tol : Float) : Bool :=
+  impl.length == 9 && (List.range 9).all fun i => closeF (el m i) (impl.getD i 0) 1 tol
+
+def absSum (l : List Float) : Float := l.foldl (fun s x => s + Float.abs x) 0
+
+/-- Cartesian distance between two triples -/
+def dist3 (p q : Float × Float × Float) : Float :=
+  let dx := p.1 - q.1; let dy := p.2.1 - q.2.1; let dz := p.2.2 - q.2.2
+  Float.sqrt (dx * dx + dy * dy + dz * dz)
+
+/-- larger semi-axis -/
+def semimax (a f : Float) : Float := a * (if 1 - f > 1 then 1 - f else 1)
+
+/-- the judgement shared by `georev` and `locrevm`: the implementation's `(lat, lon, h, M)` for the geocentric point `P`.
+Positions are compared in Cartesian space (lat is Hölder-1/2 at the rim of the singular disc, lon is arbitrary on the axis):
+the forward images (formula model `forward`, binary64) of the implementation's answer and of the model's answer must both
+reproduce `P`; ranges are decided here; `M` must be `frame` applied to `Rotation` at the implementation's own `(lat, lon)`
+(theorem `reverseM_frame_is_enu`) -/
+def judgeReverse (what : String) (E : Ell Float) (P : Float × Float × Float) (lat lon h : Float) (M : List Float)
+    (frame : List Float → List Float) (frameTol : Float) (frameOk : Bool) : Verdict :=
+  let (X, Y, Z) := P
+  let r := reverse E (2 * E.a / eps) X Y Z
+  let o := reverseM E (2 * E.a / eps) X Y Z
+  let sc := Float.abs X + Float.abs Y + Float.abs Z + semimax E.a E.f
+  let imgI := forward E (sind lat) (cosd lat) (sind lon) (cosd lon) h
+  let imgM := forward E r.sphi r.cphi r.slam r.clam r.h
+  let huge := sc > 1e150
+  let tol := 1e-12 * sc / (1 - (if E.f > 0 then E.f else 0))
+  let unitM := Float.abs (r.sphi * r.sphi + r.cphi * r.cphi - 1) ≤ 1e-14 && Float.abs (r.slam * r.slam + r.clam * r.clam - 1) ≤ 1e-14
+  let Rxy := RealLike.hypot X Y
+  if lat.isNaN || lon.isNaN || h.isNaN then .bad s!"{what} returned NaN: ({shw lat},{shw lon},{shw h}); model ({shw o.lat},{shw o.lon},{shw o.h})"
+  else if !(Float.abs lat ≤ 90 && Float.abs lon ≤ 180) then .bad s!"{what}: lat/lon outside [-90,90] x [-180,180]: ({shw lat},{shw lon})"
+  else if !(Float.abs o.lat ≤ 90 && Float.abs o.lon ≤ 180) then .bad s!"{what}: the model's lat/lon leave their ranges: ({shw o.lat},{shw o.lon})"
+  else if frameOk && (Rxy == 0 || Rxy > 1e-290) && !unitM then
+    .bad s!"{what}: the pair handed to Rotation by the model is not a unit vector: ({shw r.sphi},{shw r.cphi}) ({shw r.slam},{shw r.clam})"
+  else if frameOk && (Rxy == 0 || Rxy > 1e-290) && M.length == 9 &&
+      !closeM (frame (rotation (sind lat) (cosd lat) (sind lon) (cosd lon))) M frameTol then
+    .bad s!"{what}: the matrix is not the east/north/up frame at the returned (lat, lon): impl={M} expected={frame (rotation (sind lat) (cosd lat) (sind lon) (cosd lon))}"
+  else if huge then .ok
+  else if dist3 imgI P ≤ tol && dist3 imgM P ≤ tol then .ok
+  else .bad s!"{what}: impl=({shw lat},{shw lon},{shw h}) closes to {dist3 imgI P} m; formula model=({shw o.lat},{shw o.lon},{shw o.h}) closes to {dist3 imgM P} m (tolerance {tol})"
+
 def handle (op : String) (args res : List String) : Option Verdict :=
   match op with
   | "geofwd" => some <|
     match args.mapM pfl, res.mapM pfl with
     | some [a, f, _lat, _lon, h, sphi, cphi, slam, clam], some (X :: Y :: Z :: M) =>
       let E : Ell Float := ⟨a, f⟩
-      let (mx, my, mz) := forward E sphi cphi slam clam h
+      let ((mx, my, mz), mM) := forwardM E sphi cphi slam clam h
       let sc := Float.abs mx + Float.abs my + Float.abs mz + a
-      let mM := rotation sphi cphi slam clam
       if !(closeF mx X sc 1e-15 && closeF my Y sc 1e-15 && closeF mz Z sc 1e-15) then
         .bad s!"Geocentric::Forward: impl=({shw X},{shw Y},{shw Z}) formula model=({shw mx},{shw my},{shw mz})"
-      else if M.length == 9 && !((List.range 9).all fun i => closeF (el mM i) (M.getD i 0) 1 4e-16) then
+      else if M.length == 9 && !closeM mM M 4e-16 then
         .bad s!"Geocentric::Forward rotation matrix differs from the model: impl={M} model={mM}"
       else .ok
     | _, _ => .bad "parse"
   | "georev" => some <|
     match args.mapM pfl, res.mapM pfl with
-    | some [a, f, X, Y, Z], some [lat, lon, h] =>
-      let E : Ell Float := ⟨a, f⟩
-      let eps : Float := 2.220446049250313e-16
-      let r := reverse E (2 * a / eps) X Y Z
-      let deg : Float := 180 / 3.14159265358979323846
-      let mlat := Float.atan2 r.sphi r.cphi * deg
-      let mlon := Float.atan2 r.slam r.clam * deg
-      let sc := Float.abs X + Float.abs Y + Float.abs Z + a
-      -- compare in Cartesian space (lat is Hölder-1/2 at the rim of the singular disc, lon is arbitrary on the axis):
-      -- the forward images (formula model `forward`, binary64) of the implementation's answer and of the model's
-      -- answer must both reproduce (X, Y, Z)
-      let rad : Float := 3.14159265358979323846 / 180
-      let img (la lo hh : Float) : Float × Float × Float := forward E (Float.sin (la * rad)) (Float.cos (la * rad)) (Float.sin (lo * rad)) (Float.cos (lo * rad)) hh
-      let (ix, iy, iz) := img lat lon h
-      let (mx, my, mz) := forward E r.sphi r.cphi r.slam r.clam r.h
-      let dist (x y z : Float) : Float := Float.sqrt ((x - X) * (x - X) + (y - Y) * (y - Y) + (z - Z) * (z - Z))
-      let huge := sc > 1e150
-      let tol := 1e-12 * sc / (1 - (if f > 0 then f else 0))
-      if lat.isNaN || lon.isNaN || h.isNaN then .bad s!"Geocentric::Reverse returned NaN: ({shw lat},{shw lon},{shw h}); model ({shw mlat},{shw mlon},{shw r.h})"
-      else if huge then .ok
-      else if dist ix iy iz ≤ tol && dist mx my mz ≤ tol then .ok
-      else .bad s!"Geocentric::Reverse: impl=({shw lat},{shw lon},{shw h}) closes to {dist ix iy iz} m; formula model=({shw mlat},{shw mlon},{shw r.h}) closes to {dist mx my mz} m (tolerance {tol})"
+    | some [a, f, X, Y, Z], some (lat :: lon :: h :: M) =>
+      judgeReverse "Geocentric::Reverse" ⟨a, f⟩ (X, Y, Z) lat lon h M id 1.5e-15 true
+    | _, _ => .bad "parse"
+  | "georot" => some <|
+    match args.mapM pfl, res.mapM pfl with
+    | some (m0 :: m1 :: m2 :: m3 :: m4 :: m5 :: m6 :: m7 :: m8 :: [x, y, z]), some [X, Y, Z, u, v, w] =>
+      let M := [m0, m1, m2, m3, m4, m5, m6, m7, m8]
+      let (rx, ry, rz) := rotate M x y z
+      let (ux, uy, uz) := unrotate M x y z
+      let sc := absSum M * (Float.abs x + Float.abs y + Float.abs z)
+      if closeF rx X sc 4e-16 && closeF ry Y sc 4e-16 && closeF rz Z sc 4e-16 && closeF ux u sc 4e-16 && closeF uy v sc 4e-16 && closeF uz w sc 4e-16 then .ok
+      else .bad s!"Geocentric::Rotate/Unrotate: impl=({shw X},{shw Y},{shw Z}) ({shw u},{shw v},{shw w}) model=({shw rx},{shw ry},{shw rz}) ({shw ux},{shw uy},{shw uz})"
     | _, _ => .bad "parse"
   | "locfwd" => some <|
-    -- args: origin geocentric image x0 y0 z0, the nine r entries, the point's geocentric image; res: x y z
+    -- args: lat0 lon0 h0 lat lon h, then the object's state x0 y0 z0, the nine r entries, and the point's geocentric image; res: x y z
     match args.mapM pfl, res.mapM pfl with
-    | some (x0 :: y0 :: z0 :: rest), some [x, y, z] =>
+    | some (_ :: _ :: _ :: _ :: _ :: _ :: x0 :: y0 :: z0 :: rest), some [x, y, z] =>
       if rest.length != 12 then .bad "parse" else
       let O : Origin Float := ⟨x0, y0, z0, rest.take 9⟩
       let (mx, my, mz) := localForward O (rest.getD 9 0) (rest.getD 10 0) (rest.getD 11 0)
@@ -64,20 +100,55 @@ def handle (op : String) (args res : List String) : Option Verdict :=
     | _, _ => .bad "parse"
   | "locorigin" => some <|
     -- the local frame: origin = forward image of (lat0, lon0, h0), r = the rotation matrix AT (lat0, lon0) (theorems `local_origin`,
-    -- `local_isometry` are about exactly this pair)
+    -- `local_isometry`, `reset_frame` are about exactly this pair)
     match args.mapM pfl, res.mapM pfl with
     | some [a, f, _lat0, _lon0, h0, sphi, cphi, slam, clam], some (x0 :: y0 :: z0 :: r) =>
       let E : Ell Float := ⟨a, f⟩
-      let (mx, my, mz) := forward E sphi cphi slam clam h0
-      let sc := Float.abs mx + Float.abs my + Float.abs mz + a
-      let mM := rotation sphi cphi slam clam
-      if !(closeF mx x0 sc 1e-15 && closeF my y0 sc 1e-15 && closeF mz z0 sc 1e-15) then
-        .bad s!"LocalCartesian origin: impl=({shw x0},{shw y0},{shw z0}) model=({shw mx},{shw my},{shw mz})"
+      let O := reset E sphi cphi slam clam h0
+      let sc := Float.abs O.x0 + Float.abs O.y0 + Float.abs O.z0 + a
+      if !(closeF O.x0 x0 sc 1e-15 && closeF O.y0 y0 sc 1e-15 && closeF O.z0 z0 sc 1e-15) then
+        .bad s!"LocalCartesian origin: impl=({shw x0},{shw y0},{shw z0}) model=({shw O.x0},{shw O.y0},{shw O.z0})"
       else if r.length != 9 then .bad "parse"
-      else if !((List.range 9).all fun i => closeF (el mM i) (r.getD i 0) 1 4e-16) then
-        .bad s!"LocalCartesian frame is not the east/north/up frame at (lat0, lon0): impl={r} model={mM}"
+      else if !closeM O.r r 4e-16 then
+        .bad s!"LocalCartesian frame is not the east/north/up frame at (lat0, lon0): impl={r} model={O.r}"
       else .ok
     | _, _ => .bad "parse"
+  | "locfwdm" => some <|
+    -- args: a f lat0 lon0 h0 lat lon h, sincosd kernels of the origin (4) and of the point (4); res: x y z M
+    match args.mapM pfl, res.mapM pfl with
+    | some [a, f, lat0, lon0, h0, lat, lon, h, s0, c0, sl0, cl0, s, c, sl, cl], some (x :: y :: z :: M) =>
+      if lat0.isNaN || lon0.isNaN || lat.isNaN || lon.isNaN || Float.abs lat0 > 90 || Float.abs lat > 90 then .skip "outside the documented domain" else
+      let E : Ell Float := ⟨a, f⟩
+      let O := reset E s0 c0 sl0 cl0 h0
+      let ((mx, my, mz), mM) := localForwardM E O s c sl cl h
+      let sc := Float.abs O.x0 + Float.abs O.y0 + Float.abs O.z0 + Float.abs h + Float.abs h0 + semimax a f
+      if !(closeF mx x sc 4e-15 && closeF my y sc 4e-15 && closeF mz z sc 4e-15) then
+        .bad s!"LocalCartesian::Forward: impl=({shw x},{shw y},{shw z}) model (Reset + IntForward)=({shw mx},{shw my},{shw mz})"
+      else if M.length == 9 && !closeM mM M 1e-15 then
+        .bad s!"LocalCartesian::Forward matrix differs from MatrixMultiply(r0, Rotation): impl={M} model={mM}"
+      else .ok
+    | _, _ => .bad "parse"
+  | "locrevm" => some <|
+    -- args: a f lat0 lon0 h0 x y z, sincosd kernels of the origin; res: lat lon h M
+    match args.mapM pfl, res.mapM pfl with
+    | some [a, f, lat0, lon0, h0, x, y, z, s0, c0, sl0, cl0], some (lat :: lon :: h :: M) =>
+      if lat0.isNaN || lon0.isNaN || Float.abs lat0 > 90 || h0.isNaN || x.isNaN || y.isNaN || z.isNaN then .skip "outside the documented domain" else
+      let E : Ell Float := ⟨a, f⟩
+      let O := reset E s0 c0 sl0 cl0 h0
+      let P := localReverse O x y z
+      let sc := Float.abs x + Float.abs y + Float.abs z + Float.abs h0 + semimax a f
+      -- the geocentric image is a rounded sum: its meridian is defined to round-off only away from the axis
+      judgeReverse "LocalCartesian::Reverse" E P lat lon h M (fun R => matrixMultiply O.r R) 2e-15 (RealLike.hypot P.1 P.2.1 > 1e-6 * sc)
+    | _, _ => .bad "parse"
+  | "locacc" => some <|
+    -- accessors: LatitudeOrigin = LatFix(lat0), LongitudeOrigin = AngNormalize(lon0), HeightOrigin = h0, a, f — exact
+    match args.mapM parseF, res.mapM parseF with
+    | some [a, f, lat0, lon0, h0], some [rlat, rlon, rh, ra, rf, ga, gf] =>
+      all [expectF "LatitudeOrigin" (MathF.latFix lat0) rlat, expectF "LongitudeOrigin" (MathF.angNormalize lon0) rlon,
+           expectF "HeightOrigin" h0 rh, expectF "LocalCartesian::EquatorialRadius" a ra, expectF "LocalCartesian::Flattening" f rf,
+           expectF "Geocentric::EquatorialRadius" a ga, expectF "Geocentric::Flattening" f gf]
+    | _, _ => .bad "parse"
+  | "cartconvert" => some (.skip "the tool's output is compared with Utility::str of the API results by the harness")
   | "geoprops" => some (.skip "closure, least-|h|, orthonormality and isometry are judged by the harness on the implementation")
   | _ => none
 
